@@ -111,6 +111,8 @@ func vpRemoteURL() string
 func vpSleep(seconds int)
 func vpFaultArm()
 func vpFaultFired() bool
+func vpOtherDevice(dir string) bool
+func vpRunKillable(f func()) bool
 func vpTraceBegin()
 func vpCrashCheck(base string, user string, op string)
 func vpFreshBytes(b []byte) bool
@@ -346,7 +348,7 @@ func run() int {
 		// translation validation of the vfs event trace (C08/C09): the reachability witness of a
 		// clean unit is replayed natively under strace and the same obligations must hold on the
 		// real system-call trace
-		if (*flagProp == "C08" || *flagProp == "C09") && len(ur.Violations) == 0 && !*flagNoReplay {
+		if (*flagProp == "C08" || *flagProp == "C09") && (strings.Contains(name, "_Crash") || strings.Contains(name, "_Durable")) && len(ur.Violations) == 0 && !*flagNoReplay {
 			if w, ok := ur.Covers["end"]; ok {
 				rp := filepath.Join(*flagVerif, "replays", fmt.Sprintf("%s-%s-witness.json", *flagProp, strings.TrimPrefix(name, "VP_"+*flagProp+"_")))
 				sym.WriteJSON(rp, map[string]interface{}{"property": *flagProp, "unit": name, "assert": "(witness)", "tier": tier, "nondet": w})
